@@ -55,7 +55,7 @@ def run(tier="quick", seed=0, pid="C13"):
     reported = set()
     words_per_spec = 6 if tier == "quick" else 40
     for name in family.SPECS:
-        if name in family.GENERATOR_SPECS:
+        if name in family.GENERATOR_SPECS or name in family.C04_ONLY:
             continue
         grammar, _ = family.load(name)
         words = words_of(grammar, name)
